@@ -812,7 +812,7 @@ pub fn run(ctx: Ctx) -> ! {
     });
     phase("B flag words");
     // Family C: raw bodies.
-    let nbody = ctx.pick(5, 7);
+    let nbody = ctx.pick(6, 7);
     ctx.par_shards(RAW_ALPHABET.len() * RAW_ALPHABET.len(), |l, shard| {
         let mut st = Stats::default();
         raw_bodies(l, nbody, shard, &mut st);
@@ -820,7 +820,7 @@ pub fn run(ctx: Ctx) -> ! {
     });
     phase("C raw bodies");
     // Family D: raw single records.
-    let nrd = ctx.pick(3, 5);
+    let nrd = ctx.pick(4, 5);
     ctx.par_shards(RAW_RECORD_SHARDS, |l, shard| {
         let mut st = Stats::default();
         raw_records(l, nrd, shard, &mut st);
